@@ -432,12 +432,34 @@ struct Executor {
     cpu_busy: Option<Pin<Box<tokio::time::Sleep>>>,
     /// wall-clock start of the run (for the work budget)
     wall_start: std::time::Instant,
+    cpu_start_ms: u64,
 }
 
 /// Work budget of one run in wall-clock time. Runs take milliseconds, the heaviest a second or two; a
 /// run that is still computing after this long is doing work out of all proportion to its input
 /// (thousands of times the usual). The same seed burns the same time on replay.
-pub const RUN_WALL_BUDGET_S: u64 = 120;
+/// processor-time budget of one run in seconds (runs use up to ~0.2 s; see the evidence files)
+pub const RUN_WALL_BUDGET_S: u64 = 30;
+
+/// Processor time this process has used so far, in milliseconds (utime + stime of /proc/self/stat;
+/// the worker runs one simulation at a time on one thread). Unlike wall time it does not depend on
+/// what else the machine is doing, so a run that trips a work budget trips it again on replay.
+pub fn process_cpu_ms() -> u64 {
+    let stat = match std::fs::read_to_string("/proc/self/stat") {
+        Ok(s) => s,
+        Err(_) => return 0,
+    };
+    // fields after the command name (which may contain spaces) start behind the last ')'
+    let rest = match stat.rfind(')') {
+        Some(i) => &stat[i + 1..],
+        None => return 0,
+    };
+    let f: Vec<&str> = rest.split_whitespace().collect();
+    // rest[0] is field 3 (state); utime is field 14, stime field 15
+    let utime: u64 = f.get(11).and_then(|x| x.parse().ok()).unwrap_or(0);
+    let stime: u64 = f.get(12).and_then(|x| x.parse().ok()).unwrap_or(0);
+    (utime + stime) * 10 // USER_HZ = 100 on Linux
+}
 
 thread_local! {
     static CPU_COST: std::cell::Cell<(u32, u64)> = std::cell::Cell::new((0, 0));
@@ -673,11 +695,11 @@ impl Future for Executor {
             }
             this.slots[id].stalled_until = None;
         }
-        if with_state(|s| s.steps) & 0xff == 0 && this.wall_start.elapsed().as_secs() >= RUN_WALL_BUDGET_S {
+        if with_state(|s| s.steps) & 0xff == 0 && this.wall_start.elapsed().as_secs() >= 2 && process_cpu_ms().saturating_sub(this.cpu_start_ms) >= RUN_WALL_BUDGET_S * 1000 {
             violation(
                 "work-out-of-proportion",
                 format!(
-                    "the run has been computing for {} s of wall time ({} scheduler steps, {} virtual ms): thousands of times what runs of this kind take; busiest tasks {:?}",
+                    "the run has used {} s of processor time ({} scheduler steps, {} virtual ms): thousands of times what runs of this kind take; busiest tasks {:?}",
                     RUN_WALL_BUDGET_S,
                     with_state(|s| s.steps),
                     now_ms(),
@@ -975,6 +997,7 @@ where
                 stall_timer: None,
                 cpu_busy: None,
                 wall_start: std::time::Instant::now(),
+                cpu_start_ms: process_cpu_ms(),
             };
             spawn("main", main());
             ex.absorb_spawns();
